@@ -71,7 +71,9 @@ pub struct PropCase {
     pub state: u8,
     /// QoS of the publish (ctx 0)
     pub qos: u8,
-    /// a second, legal property in front of / behind the one under test (0 none, 1 before, 2 after)
+    /// a second, legal property in front of / behind the one under test (0 none, 1 before, 2 after);
+    /// publish only: 3 = `.properties(..).correlate(..)`, 4 = `.correlate(..).properties(..)`;
+    /// 5 = three legal companions around the one under test
     pub companion: u8,
 }
 
@@ -134,8 +136,19 @@ pub fn eval_prop(c: &PropCase) -> CaseOut {
         let props_ref: Vec<Prop> = match c.companion {
             1 => vec![companion, under_test.clone()],
             2 => vec![under_test.clone(), companion],
+            5 => vec![
+                companion.clone(),
+                Prop { id: 0x26, val: PVal::Pair(b"e".to_vec(), b"".to_vec()) },
+                under_test.clone(),
+                Prop { id: 0x26, val: PVal::Pair(b"c".to_vec(), b"f".to_vec()) },
+            ],
             _ => vec![under_test.clone()],
         };
+        // what must be on the wire when the request is accepted
+        let mut wire_ref = props_ref.clone();
+        if matches!(c.companion, 3 | 4) {
+            wire_ref.push(Prop { id: 0x09, val: PVal::Bin(b"cd".to_vec()) });
+        }
         let ctxn = CTX_NAMES[c.ctx as usize];
         let pname = format!("{}-prop{:02x}", ctxn, c.id);
         if c.ctx == 4 {
@@ -197,7 +210,14 @@ pub fn eval_prop(c: &PropCase) -> CaseOut {
             let props = props_of(&props_ref);
             let r: Result<bool, Res> = match c.ctx {
                 0 => bench
-                    .run(conn.publish(Publication::bytes("t", b"zz").qos(qos_of(c.qos)).properties(&props)), id)
+                    .run(
+                        conn.publish(match c.companion {
+                            3 => Publication::bytes("t", b"zz").qos(qos_of(c.qos)).properties(&props).correlate(b"cd"),
+                            4 => Publication::bytes("t", b"zz").qos(qos_of(c.qos)).correlate(b"cd").properties(&props),
+                            _ => Publication::bytes("t", b"zz").qos(qos_of(c.qos)).properties(&props),
+                        }),
+                        id,
+                    )
                     .map(|r| r.map(|h| h.is_some()).map_err(|e| Res::from_pub(&e)))
                     .unwrap_or(Err(Res::Cancelled)),
                 1 => bench
@@ -258,8 +278,8 @@ pub fn eval_prop(c: &PropCase) -> CaseOut {
                         CPacket::Subscribe { props, .. } | CPacket::Unsubscribe { props, .. } | CPacket::Disconnect { props, .. } => props,
                         _ => vec![],
                     });
-                    if w == Want::Accept && !sent.as_ref().is_some_and(|x| mr::props_equiv(x, &props_ref)) {
-                        flag(&mut viol, "property-not-sent", &pname, format!("{} accepted {:?} but the wire carries {:?} ({})", ctxn, props_ref, sent, mr::hex(&written)));
+                    if w == Want::Accept && !sent.as_ref().is_some_and(|x| mr::props_equiv(x, &wire_ref)) {
+                        flag(&mut viol, "property-not-sent", &pname, format!("{} accepted {:?} but the wire carries {:?} ({})", ctxn, wire_ref, sent, mr::hex(&written)));
                     }
                 }
                 (Err(e), _) => {
@@ -432,8 +452,12 @@ pub fn run(tier: Tier, caps: &Caps) -> Vec<FamilyReport> {
                 for state in states {
                     let qoss: Vec<u8> = if ctx == 0 { vec![0, 1, 2] } else { vec![0] };
                     for qos in qoss {
-                        for companion in 0..3u8 {
+                        for companion in 0..6u8 {
                             if tier == Tier::Quick && companion != 0 && state != 0 {
+                                continue;
+                            }
+                            // correlate() exists for publishes only; Correlation Data itself cannot be doubled
+                            if matches!(companion, 3 | 4) && (ctx != 0 || id == 0x09) {
                                 continue;
                             }
                             pc.push(PropCase { ctx, id, value, state, qos, companion });
